@@ -73,7 +73,7 @@ func init() {
 		},
 		{ID: "C18",
 			Harnesses: []harnessSpec{
-				{Name: "HarnessC18Defaults", Bounds: "defaults through properties, allOf (2 members, overlapping), anyOf / oneOf (2 alternatives selected by a picked member), properties next to allOf; members a, b, k with forked presence; instances assumed valid"},
+				{Name: "HarnessC18Defaults", Bounds: "defaults through properties, allOf (2 members, overlapping), anyOf / oneOf (2 alternatives selected by a picked member), properties next to allOf, properties next to oneOf (first or second alternative matching), allOf next to oneOf (3) and anyOf (2), a nested object below a schema with oneOf; members a, b, k with forked presence; instances assumed valid"},
 				{Name: "HarnessC18Nested", Bounds: "defaults inside a nested object, inside array elements (items) and inside a tuple held by a property"},
 			},
 			Outside: []string{"depth > 2", "instances the schema rejects"},
@@ -81,7 +81,7 @@ func init() {
 		{ID: "C19",
 			Harnesses: []harnessSpec{
 				{Name: "HarnessC19Prune", Bounds: "properties, patternProperties, additionalProperties (schema / true), allOf, anyOf selected by a picked member; members a, ab, b, c with forked presence; idempotence when no anyOf/oneOf"},
-				{Name: "HarnessC19Nested", Bounds: "nested object, array elements, tuple held by a property"},
+				{Name: "HarnessC19Nested", Bounds: "nested object, array elements, tuple held by a property, additionalProperties, second allOf member, a member that is both a declared property and matched by a pattern property, a member matched by a pattern property only"},
 			},
 			Outside: []string{"depth > 2"},
 		},
